@@ -16,6 +16,7 @@ the documented layout of certificate block v1 / v2.1, and a state machine of the
 import hashlib
 import json
 import os
+import re
 import shutil
 import struct
 import threading
@@ -97,18 +98,27 @@ class Env:
         self.salt = salt
         self.override = override or {}
 
+    def material(self, k):
+        key = (k["cls"], k["id"])
+        if self.override:
+            return self.override.get(key)           # anchors: only the golden key material exists
+        return material(kname(k))
+
     def blob(self, bid, n):
         if "ud" in bid:
             return ud_bytes(self.salt, bid["ud"], n)
-        key = (bid["cls"], bid["id"])
-        a, b = self.override[key] if key in self.override else material(kname(bid))
-        return a if bid["part"] == "a" else b
+        m = self.material(bid)
+        if m is None:
+            return None                             # unknown content (anchors with partial key material)
+        return m[0] if bid["part"] == "a" else m[1]
 
 
 def ev(t, env):
     op = t["op"]
     if op == "blob":
         b = env.blob(t["id"], t["len"])
+        if b is None:
+            return None
         if len(b) != t["len"]:
             raise Machinery(f"blob {t['id']} has {len(b)} bytes, the spec says {t['len']}")
         return b
@@ -117,12 +127,16 @@ def ev(t, env):
     if op == "lit":
         return bytes(t["bytes"])
     if op == "cat":
-        r = b"".join(ev(a, env) for a in t["args"])
+        parts = [ev(a, env) for a in t["args"]]
+        if any(x is None for x in parts):
+            return None
+        r = b"".join(parts)
         if len(r) != t["len"]:
             raise Machinery("cat length")
         return r
     if op == "hash":
-        return hashlib.new(t["alg"], ev(t["arg"], env)).digest()
+        arg = ev(t["arg"], env)
+        return None if arg is None else hashlib.new(t["alg"], arg).digest()
     if op == "named":
         return ev(t["arg"], env)
     raise Machinery(f"term operator {op} cannot be evaluated")
@@ -137,7 +151,7 @@ def verify_sig(t, sig, env):
     sch = t["scheme"]
     if sch["name"] != "ecdsa-raw" or len(sig) != sch["len"]:
         return False
-    a, b = env.blob({"cls": t["key"]["cls"], "id": t["key"]["id"], "part": "a"}, 0) if False else material(kname(t["key"]))
+    a, b = env.material(t["key"])
     curve = {32: ec.SECP256R1(), 48: ec.SECP384R1(), 66: ec.SECP521R1()}[len(a)]
     pub = ec.EllipticCurvePublicNumbers(int.from_bytes(a, "big"), int.from_bytes(b, "big"), curve).public_key()
     h = {"sha256": hashes.SHA256(), "sha384": hashes.SHA384(), "sha512": hashes.SHA512()}[sch["hash"]]
@@ -167,7 +181,8 @@ def match(t, data, off, env, label="?"):
         return label
     if op == "sig":
         return "ok" if verify_sig(t, chunk, env) else label
-    return "ok" if chunk == ev(t, env) else label
+    want = ev(t, env)
+    return "ok" if want is None or chunk == want else label
 
 
 # ------------------------------------------------------------------ supplying keys, driving the tool paths
@@ -514,6 +529,7 @@ def exec_cb1(data, der_expected, rkh_used):
 
 def replay_cb1(job):
     from spsdk.crypto.certificate import Certificate
+    from spsdk.crypto.crypto_types import SPSDKEncoding
     from spsdk.utils.crypto.cert_blocks import CertBlockV1
 
     tid, beh, _ = job
@@ -547,7 +563,7 @@ def replay_cb1(job):
                 e["got"] = val(p.rkth)
                 idx = p.rkh_index
                 facts = {"img": p.image_length, "build": p.header.build_number, "rkh_index": -1 if idx is None else idx,
-                         "cert_count": len(p.certificates), "cert_ok": len(p.certificates) == 1 and p.certificates[0].export() == der}
+                         "cert_count": len(p.certificates), "cert_ok": len(p.certificates) == 1 and p.certificates[0].export(SPSDKEncoding.DER) == der}
                 try:
                     facts["reexport_sha"] = hashlib.sha256(p.export()).hexdigest()
                 except Exception as x:  # noqa: BLE001
@@ -639,8 +655,6 @@ def sampled_cases(r, n, quick):
             cls = [r.choice(classes) if mixed else None for _ in range(cnt)]
             c0 = r.choice(classes)
             cls = [x or c0 for x in cls]
-            if path == "dc":
-                cls = ["rsa2048" if x == "rsa3072" else x for x in cls]
         else:
             c0 = r.choice({"cert_block_21": ["p256", "p384"], "srk_table_ahab_v2": ["p256", "p384", "p521"]}.get(
                 rot, ["rsa2048", "p256", "p384", "p521"] if quick else ["rsa2048", "rsa3072", "rsa4096", "p256", "p384", "p521"]))
@@ -648,6 +662,8 @@ def sampled_cases(r, n, quick):
             cls = [c0] * cnt
         if path == "rkht_parse" and rot == "cert_block_21" and cnt < 2:
             continue
+        if path == "dc":  # the DAT protocol versions know RSA-2048 and RSA-4096 only
+            cls = ["rsa2048" if x == "rsa3072" else x for x in cls]
         keys = [{"cls": x, "id": r.randrange(1, 5 if x.startswith("rsa") else 7)} for x in cls]
         used = r.randrange(1, cnt + 1) if path in ("certblock", "certblock_parse", "certblock_cfg", "dc") else 0
         encs = [fmts_for(rot, path, i + 1 == used, r) for i in range(cnt)]
@@ -666,7 +682,8 @@ def sampled_cases(r, n, quick):
 # ------------------------------------------------------------------ anchors: the terms reproduce frozen golden values
 def anchor_check(cases):
     """Evaluate emitted terms with the KEY MATERIAL OF GOLDEN ARTEFACTS (copied from the repository's tests at the pinned
-    commit) and compare with the stored hashes: the documented constructions of the spec are bound to frozen artefacts."""
+    commit) and compare with the stored hashes / table bytes: the documented constructions of the spec are bound to frozen
+    artefacts, independently of spsdk/*.py."""
     from cryptography import x509
     from cryptography.hazmat.primitives import serialization
     from cryptography.hazmat.primitives.asymmetric import rsa
@@ -677,29 +694,52 @@ def anchor_check(cases):
     by_shape = {}
     for c, term in cases:
         if all(k["id"] == i + 1 for i, k in enumerate(c["keys"])) and len({k["cls"] for k in c["keys"]}) == 1:
-            ca = tuple(e["fmt"].startswith("ca") for e in c["encs"])
-            by_shape.setdefault((c["rot"], c["keys"][0]["cls"], len(c["keys"]), ca), term)
+            ca = all(e["fmt"].startswith("ca") for e in c["encs"])
+            if ca or not any(e["fmt"].startswith("ca") for e in c["encs"]):
+                by_shape.setdefault((c["rot"], c["keys"][0]["cls"], len(c["keys"]), ca), term)
+    sizes = {"p256": (32, 32), "p384": (48, 48), "p521": (66, 66), "rsa2048": (256, 3), "rsa3072": (384, 3), "rsa4096": (512, 3)}
     n = 0
     for g in json.load(open(idx)):
-        mats = []
-        for fn in g["keys"]:
-            raw = open(os.path.join(ADIR, fn), "rb").read()
-            if fn.endswith((".crt", ".cert", "_crt.pem")):
-                pub = (x509.load_pem_x509_certificate(raw) if raw.startswith(b"-----") else x509.load_der_x509_certificate(raw)).public_key()
-            else:
-                pub = serialization.load_pem_public_key(raw) if raw.startswith(b"-----") else serialization.load_der_public_key(raw)
-            nums = pub.public_numbers()
-            if isinstance(pub, rsa.RSAPublicKey):
-                mats.append((nums.n.to_bytes(pub.key_size // 8, "big"), nums.e.to_bytes(3, "big")))
-            else:
-                size = (pub.curve.key_size + 7) // 8
-                mats.append((nums.x.to_bytes(size, "big"), nums.y.to_bytes(size, "big")))
-        key = (g["rot"], g["cls"], len(mats), tuple(g["ca"] for _ in mats))
+        mats, table = {}, None
+        if "keys" in g:
+            for i, fn in enumerate(g["keys"]):
+                raw = open(os.path.join(ADIR, fn), "rb").read()
+                if fn.endswith((".crt", ".cert", "_crt.pem")):
+                    pub = (x509.load_pem_x509_certificate(raw) if raw.startswith(b"-----") else x509.load_der_x509_certificate(raw)).public_key()
+                else:
+                    pub = serialization.load_pem_public_key(raw) if raw.startswith(b"-----") else serialization.load_der_public_key(raw)
+                nums = pub.public_numbers()
+                if isinstance(pub, rsa.RSAPublicKey):
+                    mats[(g["cls"], i + 1)] = (nums.n.to_bytes(pub.key_size // 8, "big"), nums.e.to_bytes(3, "big"))
+                else:
+                    size = (pub.curve.key_size + 7) // 8
+                    mats[(g["cls"], i + 1)] = (nums.x.to_bytes(size, "big"), nums.y.to_bytes(size, "big"))
+            count = len(g["keys"])
+        else:
+            table = open(os.path.join(ADIR, g["table"]), "rb").read()
+            la, lb = sizes[g["cls"]]
+            count = 4
+            if g["layout"] in ("hab", "ahab"):        # public-key records: 12-byte header, then a, then b
+                rec = 12 + la + lb
+                for i in range(4):
+                    o = 4 + i * rec + 12
+                    mats[(g["cls"], i + 1)] = (table[o:o + la], table[o + la:o + la + lb])
+            else:                                      # v2: the records hold hashes; one SRK data block follows the table
+                o = 4 + 4 * 76
+                mats[(g["cls"], table[o + 4] + 1)] = (table[o + 8:o + 8 + la], table[o + 8 + la:o + 8 + la + lb])
+        key = (g["rot"], g["cls"], count, g["ca"])
         if key not in by_shape:
             raise Machinery(f"anchor {g['name']}: the generator emitted no case of shape {key}")
-        got = ev(by_shape[key], Env(override={(g["cls"], i + 1): m for i, m in enumerate(mats)}))
-        if got.hex() != g["value"]:
-            raise Machinery(f"anchor {g['name']}: the term of the spec evaluates to {got.hex()}, the golden value is {g['value']}")
+        term, env = by_shape[key], Env(override=mats)
+        if g.get("table_exact"):
+            tt = term["arg"]                           # value = H(alg, table)
+            if match(tt, table, 0, env, "table") != "ok" or tt["len"] > len(table):
+                raise Machinery(f"anchor {g['name']}: the table term of the spec does not describe the golden table")
+        else:
+            want = g.get("value") or open(os.path.join(ADIR, g["value_file"]), "rb").read().hex()
+            got = ev(term, env)
+            if got is None or got.hex() != want:
+                raise Machinery(f"anchor {g['name']}: the term of the spec evaluates to {got and got.hex()}, the golden value is {want}")
         n += 1
     return n
 
@@ -734,6 +774,13 @@ def finding_key(t, matched, evname, why):
         b = evs[0]
         return f"C03/cert_block_1/{evname[:-1].lower()}/{key_class(b['keys'])}/{why}"
     return f"C03/{evname}/{why}"
+
+
+def slug(msg):
+    """Exception class + the first words of its message: part of the finding key of a refused / crashed call."""
+    cls, _, text = msg.partition(":")
+    words = re.findall(r"[A-Za-z_]+", text.replace("SPSDK", ""))[:5]
+    return cls.strip() + ":" + "-".join(words)
 
 
 def slim(t):
@@ -798,8 +845,8 @@ def run(tier):
            bg("cb1", lambda: gen("cb1", menu, 3 if quick else 4, workers=1 if quick else 2)),
            bg("files", lambda: gen("files", menu, 3 if quick else 5, workers=1 if quick else 2)),
            bg("mc", lambda: tlc.mc("C03", "RotMC", "RotMC.cfg", workers=2 if quick else 4, heap="6g", timeout=900,
-                                   require_actions=("DoCompute", "DoWriteFile", "DoReadByPath", "DoBuild21", "Export21", "Parse21", "DoSetUserData",
-                                                    "DoSetConstraints", "DoBuild1", "Export1", "Parse1", "DoSetImageLength"))),
+                                   require_actions=("LCompute", "LWriteFile", "LReadByPath", "LBuild21", "LExport21", "LParse21", "LSetUserData",
+                                                    "LSetConstraints", "LBuild1", "LExport1", "LParse1", "LSetImageLength"))),
            bg("asbuilt", lambda: tlc.run("C03", "RotMC", "RotMC_asbuilt.cfg", workers=1, heap="4g", timeout=900))]
     for th in ths:
         th.join()
@@ -861,9 +908,9 @@ def run(tier):
                             + json.dumps(slim(t)["ev"][min(matched, len(t['ev']) - 1)])[:600])
         e = t["ev"][min(matched, len(t["ev"]) - 1)]
         if "crash" in e:
-            why = "raised:" + e["crash"].split(":")[0]
+            why = "raised:" + slug(e["crash"])
         elif evname in ("Compute", "ReadByPath") and why == "returned":
-            why = ("refused" if e["got"]["k"] == "err" else "raised") + ":" + e["got"]["msg"].split(":")[0]
+            why = ("refused" if e["got"]["k"] == "err" else "raised") + ":" + slug(e["got"]["msg"])
         key = finding_key(t, matched, evname, why)
         what = f"event #{matched + 1} ({evname}) is not a step of the R-spec: clause '{why}'"
         if evname in ("Compute", "ReadByPath"):
@@ -903,7 +950,7 @@ def replay(path):
         f = os.path.join(scratch(), "replay.ndjson")
         with open(f, "w") as fh:
             fh.write(json.dumps(c) + "\n")
-        g = gen("none", "small", 1, f, workers=1)
+        g = gen("extra", "small", 1, f, workers=1)
         j = [x for x in g.json_prints() if x["mode"] == "case"]
         if len(j) != 1:
             raise Machinery("replay: the generator did not return the term of the witness")
